@@ -467,3 +467,60 @@ class LibIncludeLoop(Contract):
 
 R.contracts[LibIncludeLoop.name] = LibIncludeLoop()
 C34_FUNCS.append(LibIncludeLoop.name)
+
+
+def delegation_reached_obligation(tu):
+    """structural obligation on the clang AST of lib_build_and_cache_attr: in the branch taken when the name is not one of
+    the module's own globals, nothing can leave the function BEFORE the delegation loop over the included libs except the
+    depth guard `recursion > 100` -- in particular not `if (recursion > 0) return NULL`, which belongs after the loop (an
+    included lib asked on behalf of an including one must still ask ITS includes)"""
+    from vf.smt import Ob
+    fn = tu.functions['lib_build_and_cache_attr']
+
+    def contains(n, kinds):
+        if isinstance(n, dict):
+            if n.get('kind') in kinds:
+                return True
+            return any(contains(ch, kinds) for ch in n.get('inner', []) or [])
+        return False
+
+    def text_has(n, name):
+        if isinstance(n, dict):
+            if n.get('kind') == 'DeclRefExpr' and n.get('referencedDecl', {}).get('name') == name:
+                return True
+            if n.get('kind') == 'MemberExpr' and n.get('name') == name:
+                return True
+            return any(text_has(ch, name) for ch in n.get('inner', []) or [])
+        return False
+
+    def lits(n, acc):
+        if isinstance(n, dict):
+            if n.get('kind') == 'IntegerLiteral':
+                acc.append(int(n.get('value', '0')))
+            for ch in n.get('inner', []) or []:
+                lits(ch, acc)
+        return acc
+
+    body = [c_ for c_ in fn['inner'] if c_.get('kind') == 'CompoundStmt'][0]
+    outer = [s_ for s_ in body.get('inner', []) if s_.get('kind') == 'IfStmt' and text_has(s_['inner'][0], 'index')]
+    ok, why = False, 'the `index < 0` branch was not found'
+    if outer:
+        blk = outer[0]['inner'][1].get('inner', []) or []
+        ok, why = False, 'no delegation loop in the branch'
+        for k, s_ in enumerate(blk):
+            if contains(s_, ('ForStmt',)):
+                early = [x for x in blk[:k] if contains(x, ('ReturnStmt', 'GotoStmt'))]
+                inner = s_['inner'][1].get('inner', []) if s_.get('kind') == 'IfStmt' else []
+                pos = [j for j, x in enumerate(inner) if contains(x, ('ForStmt',))]
+                bad_inner = []
+                for x in (inner[:pos[0]] if pos else []):
+                    if contains(x, ('ReturnStmt', 'GotoStmt')):
+                        guard_ok = x.get('kind') == 'IfStmt' and text_has(x['inner'][0], 'recursion') and lits(x['inner'][0], []) == [100]
+                        if not guard_ok:
+                            bad_inner.append(x)
+                ok = not early and not bad_inner and text_has(s_['inner'][0], 'included_libs')
+                why = 'ok' if ok else 'a statement that can leave the function precedes the loop'
+                break
+    return [Ob("lib_obj.c:lib_build_and_cache_attr:flow[a name that is not an own global always reaches the delegation loop over the "
+               "included libs (only the depth guard `recursion > 100` may leave before it); found: %s]" % why, [], z3.BoolVal(ok),
+               kind='flow')]
